@@ -173,6 +173,10 @@ class Execution:
                 tree.run_step()
                 self.steps += 1
                 w.emit("boundary", tree, {"k": self.steps})
+                if self.desc.get("print_at_boundaries"):
+                    # a user who prints the reports between steps (after the monitors have looked)
+                    tree.summary()
+                    tree.tree()
         else:
             raise HarnessError(f"unknown drive {self.drive}")
         w.emit("end", tree, {})
